@@ -1154,27 +1154,34 @@ fn is_certified(fmt: Fmt, item: &Value, truth: &Honest) -> bool {
     }
 }
 
-/// narrow class: the uncertified reported hashes are two neighbours whose concatenation is the concatenation of
-/// two certified hashes (characters moved from one sibling leaf to the other)
-fn is_sibling_boundary_class(reported: &[Value], truth: &Honest) -> bool {
-    let bad: Vec<&str> = reported.iter().filter_map(|x| x.as_str()).filter(|s| !truth.certified_legacy.contains(*s)).collect();
-    if bad.len() != 2 {
+/// narrow class: every uncertified reported hash is a *piece of two re-cut sibling leaves*: a proper prefix or suffix
+/// of a certified hash, a certified hash followed by a proper prefix of a certified hash, or a proper suffix of a
+/// certified hash followed by a certified hash (a fabricated or edited hash has 64 characters and never qualifies)
+fn is_recut_piece(h: &str, cert: &BTreeSet<String>) -> bool {
+    let n = h.len();
+    if n == 64 || !(40..=88).contains(&n) || !h.is_ascii() {
         return false;
     }
-    for cat in [format!("{}{}", bad[0], bad[1]), format!("{}{}", bad[1], bad[0])] {
-        if cat.len() == 128 && truth.certified_legacy.contains(&cat[..64]) && truth.certified_legacy.contains(&cat[64..]) {
-            return true;
-        }
+    if n < 64 {
+        cert.iter().any(|c| c.starts_with(h) || c.ends_with(h))
+    } else {
+        (cert.contains(&h[..64]) && cert.iter().any(|c| c.starts_with(&h[64..]))) || (cert.contains(&h[n - 64..]) && cert.iter().any(|c| c.ends_with(&h[..n - 64])))
     }
-    false
+}
+
+fn is_sibling_boundary_class(reported: &[Value], truth: &Honest) -> bool {
+    let bad: Vec<&str> = reported.iter().filter_map(|x| x.as_str()).filter(|s| !truth.certified_legacy.contains(*s)).collect();
+    !bad.is_empty() && reported.iter().all(|x| x.as_str().is_some()) && bad.iter().all(|h| is_recut_piece(h, &truth.certified_legacy))
 }
 
 pub const KEY_SIBLING: &str = "legacy-tx-sibling-leaf-boundary-move";
 pub const KEY_STAKE_BOUNDARY: &str = "stake-leaf-boundary-move";
+pub const KEY_STAKE_SIBLING: &str = "stake-sibling-leaf-boundary-move";
 
 struct Known {
     sibling: bool,
     stake_boundary: bool,
+    stake_sibling: bool,
 }
 
 fn proof_case(c: &ProofCase, known: &Known) -> Report {
@@ -1278,6 +1285,10 @@ fn proof_case(c: &ProofCase, known: &Known) -> Report {
         Flow::Accepted { .. } => "accepted",
     };
     rep.label(format!("verdict:{verdict}"));
+    if let Flow::Panicked(p) = &flow {
+        // a crash on a tampered response is not an acceptance (decoder robustness is C05's subject); keep it visible
+        rep.label(format!("flow-panicked:{}", p.rsplit(" @ ").next().unwrap_or("")));
+    }
     if matches!(flow, Flow::Undecodable) {
         return rep;
     }
@@ -1355,7 +1366,6 @@ fn proof_case(c: &ProofCase, known: &Known) -> Report {
         return rep;
     }
     rep.label("accepted-and-rule-holds");
-    let _ = known.stake_boundary;
     rep
 }
 
@@ -1612,7 +1622,11 @@ fn stake_case(c: &StakeCase, known: &Known) -> Report {
                     rep.violation(KEY_STAKE_BOUNDARY, what);
                 }
             } else if e == c.epoch && leaves_of(&map).concat() == leaves_of(&certified).concat() && map.len() == certified.len() {
-                rep.violation("stake-sibling-leaf-boundary-move", what);
+                if known.stake_sibling {
+                    rep.excluded_known(KEY_STAKE_SIBLING);
+                } else {
+                    rep.violation(KEY_STAKE_SIBLING, what);
+                }
             } else {
                 rep.violation("stake-distribution-differs-from-certified", what);
             }
@@ -1689,9 +1703,7 @@ fn msd_case(c: &MsdCase) -> Report {
     let builder = match SignerBuilder::new(&signers, &params) {
         Ok(b) => b,
         Err(e) => {
-            if std::env::var("C11_DEBUG").is_ok() {
-                eprintln!("MSD honest signers refused: {e:?}");
-            }
+            let _ = e;
             rep.label("msd-honest-signers-refused");
             rep.label("msd-discard:honest-signers-refused");
         rep.discard("honest signers refused");
@@ -1728,11 +1740,6 @@ fn msd_case(c: &MsdCase) -> Report {
         return rep;
     };
     if msd_flow(&honest, &cert) != Ok(true) {
-        if std::env::var("C11_DEBUG").is_ok() {
-            use mithril_common::messages::MithrilStakeDistributionMessage as M;
-            let msg: M = serde_json::from_value(honest.clone()).unwrap();
-            eprintln!("MSD honest: {:?}", MessageBuilder::new().compute_mithril_stake_distribution_message(&cert, &msg).map(|p| (p.compute_hash(), cert.signed_message.clone())));
-        }
         rep.label("msd-honest-not-accepted");
         rep.label("msd-discard:honest-Mithril-stake-distribution-not-accepted");
         rep.discard("honest Mithril stake distribution not accepted");
@@ -2007,6 +2014,14 @@ fn witness_stake_boundary() -> bool {
     matches!(stake_flow(&m, &cert), Ok(Some((map, _))) if map != certified)
 }
 
+fn witness_stake_sibling() -> bool {
+    // leaves "pool1qmjmkc0" ‖ "pool1vxm06u3910000" re-cut as "pool1qmjmkc0pool1" ‖ "vxm06u3910000" (same order, same root)
+    let certified: BTreeMap<String, u64> = [("pool1qmjmkc".to_string(), 0u64), ("pool1vxm06u".to_string(), 3_910_000)].into_iter().collect();
+    let Some((cert, _, mut m)) = honest_stake(&certified, 7) else { return false };
+    m["stake_distribution"] = json!({"pool1qmjmkc0pool": 1, "vxm06u39": 10000});
+    matches!(stake_flow(&m, &cert), Ok(Some((map, _))) if map != certified)
+}
+
 fn witness_sibling() -> bool {
     // 15 blocks with one transaction each = one complete block range; neighbours 0 and 1 are sibling leaves
     let spec = ChainSpec { seed: 0x51b, first: 0, txs: vec![1; 15], up_to_idx: u16::MAX, offset: 0, epoch: 3 };
@@ -2056,12 +2071,17 @@ pub fn run(args: &Args) -> i32 {
         .require_label("cert:Foreign")
         .require_label("csd-honest-accepted")
         .require_label("class:stake-boundary-move-same-leaves")
+        .require_label("csd-tamper:Resplit")
         .require_label("csd-verdict:rejected")
         .require_label("msd-honest-accepted")
         .require_label("msd-verdict:rejected");
     let t = check.tier;
     check.shrink_iters(300);
-    let known = Known { sibling: check.has_open_known(KEY_SIBLING), stake_boundary: check.has_open_known(KEY_STAKE_BOUNDARY) };
+    let known = Known {
+        sibling: check.has_open_known(KEY_SIBLING),
+        stake_boundary: check.has_open_known(KEY_STAKE_BOUNDARY),
+        stake_sibling: check.has_open_known(KEY_STAKE_SIBLING),
+    };
     let scale = if check.is_replay() { 0 } else { 1 };
     let pool = build_pool(check.seed, scale * t.pick(200, 6000) as usize, check.threads);
     check.note_section("pool", json!({"chains": pool.len()}));
@@ -2075,6 +2095,7 @@ pub fn run(args: &Args) -> i32 {
     let seeds: Vec<u64> = (0..12).map(|i| mix(check.seed, 0x5d + i) >> 1).collect();
     check.section("mithril-stake-distribution", || msd_case_strategy(seeds.clone()), t.pick(400, 10_000), msd_case);
     check.witness(KEY_STAKE_BOUNDARY, "the client accepts {pool1abc1: 23} against the certificate of {pool1abc: 123}", witness_stake_boundary);
+    check.witness(KEY_STAKE_SIBLING, "the client accepts {pool1qmjmkc0pool: 1, vxm06u39: 10000} against the certificate of {pool1qmjmkc: 0, pool1vxm06u: 3910000}", witness_stake_sibling);
     check.witness(KEY_SIBLING, "legacy proof: characters moved between two sibling transaction-hash leaves are accepted and reported as certified transactions", witness_sibling);
     check.finish()
 }
